@@ -483,6 +483,10 @@ func (l globalLV) Load(x *Exec, st *State) Value {
 	if v, ok := st.vars[l.obj]; ok {
 		return v
 	}
+	if v, ok := x.globalInitValue(st, l.obj); ok {
+		st.vars[l.obj] = v
+		return v
+	}
 	return x.globalValue(l.fr, st, l.obj)
 }
 func (l globalLV) Store(x *Exec, st *State, v Value) { st.vars[l.obj] = v }
@@ -1940,4 +1944,61 @@ func (x *Exec) constInitOf(obj *types.Var) Value {
 	}
 	x.Trusted["package-level variable "+obj.Pkg().Name()+"."+obj.Name()+" is never assigned: treated as its constant initialiser"] = true
 	return x.constValue(x.resolveType(obj.Type()), tv.Value)
+}
+
+// globalInitValue evaluates the initialiser of a never-assigned package-level
+// variable when it is a composite literal or the address of one (e.g. an
+// *http.Client with its policy fields).  Evaluated once per path, in that path's state.
+func (x *Exec) globalInitValue(st *State, obj *types.Var) (Value, bool) {
+	if obj.Pkg() == nil || !inModule(obj.Pkg().Path()) {
+		return nil, false
+	}
+	pkg := x.L.pkgOf(obj.Pkg().Path())
+	if pkg == nil {
+		return nil, false
+	}
+	var init ast.Expr
+	for _, f := range pkg.Syntax {
+		for _, d := range f.Decls {
+			gd, ok := d.(*ast.GenDecl)
+			if !ok || gd.Tok != token.VAR {
+				continue
+			}
+			for _, sp := range gd.Specs {
+				vs := sp.(*ast.ValueSpec)
+				for i, n := range vs.Names {
+					if pkg.TypesInfo.Defs[n] == obj && i < len(vs.Values) {
+						init = vs.Values[i]
+					}
+				}
+			}
+		}
+	}
+	if init == nil {
+		return nil, false
+	}
+	e := ast.Unparen(init)
+	if u, ok := e.(*ast.UnaryExpr); ok && u.Op == token.AND {
+		e = ast.Unparen(u.X)
+	}
+	cl, ok := e.(*ast.CompositeLit)
+	if !ok {
+		return nil, false
+	}
+	if _, isStruct := pkg.TypesInfo.TypeOf(cl).Underlying().(*types.Struct); !isStruct {
+		return nil, false
+	}
+	fr := x.newFrame(nil, nil, nil, nil, &ast.BlockStmt{})
+	fr.pkg = pkg
+	fr.tsubst = map[*types.TypeParam]types.Type{}
+	fr.top = nil
+	var out Value
+	saved := x.tsub
+	x.expr(fr, init, st, func(_ *State, v Value) { out = v })
+	x.tsub = saved
+	if out == nil {
+		return nil, false
+	}
+	x.Trusted["package-level variable "+obj.Pkg().Name()+"."+obj.Name()+" holds its initialiser (never reassigned: assumed)"] = true
+	return out, true
 }
